@@ -20,16 +20,23 @@ def kill_capacity(ev, shape):
 def dispatch_setup(F, P):
     poll = F.trait_method('Future', 'client::RequestDispatch', 'poll')
     reach = reachable_local_fns(F, poll)
-    acc, fields = find_cell_accessors(F, P, 'client::RequestDispatch', lambda t: t.startswith('std::option::Option<'))
+    acc, fields = find_cell_accessors(F, P, 'client::RequestDispatch', lambda t: t.startswith('std::option::Option<') and 'ChannelError' in t)
     if len(fields) != 1:
         raise CannotDecide('terminal-error cell of the dispatch: %d candidates' % len(fields))
     cell = sorted(fields)[0]
     cells = [((cell, 'None'),), ((cell, ('Some', STAR)),)]
     is_len = lambda x: bool(P.root(x)) and all(P.is_call(r, 'HashMap::len') for r, _ in P.root(x))
-    is_max = lambda x: bool(P.root(x)) and all(r[0] == 'param' and P.fpath(p)[-1:] == ('max_in_flight_requests',) for r, p in P.root(x))
+    def is_max(x):
+        rs = P.root(x, through_params=True)
+        return bool(rs) and all(r[0] == 'param' and P.fpath(p)[-1:] == ('max_in_flight_requests',) for r, p in rs)
     cmps = cmp_sites_for(F, P, reach, is_len, is_max, 'cap')
     if not cmps:
-        raise CannotDecide('capacity comparison site not found')
+        # the table size is compared with something, but not with the configured maximum: no capacity fact is granted, so every idle return
+        # that leaves the request queue unpolled is reported by the wake rules (and the bound itself by C11.capacity)
+        caplike = cmp_sites_for(F, P, reach, is_len, lambda x: True, 'capx')
+        if not caplike:
+            raise CannotDecide('capacity comparison site not found')
+        cmps = {}
     return poll, reach, acc, cells, cmps
 
 
